@@ -46,6 +46,19 @@ CLAIMED = {
              "from the library and checked for consistency (irreducibility, b' = b/xi or b*xi). k = 8/16/18/24/48 "
              "families are not modelled yet (listed in evidence notes).",
         tech=PBT + "an independent Fp12 tower + curve reference; metamorphic bilinearity oracle"),
+    "C08": dict(
+        text="Three generated searches with ASan+UBSan as part of the oracle: (1) every other check runs on the same "
+             "sanitized builds with storage poisoning; (2) a boundary sweep over capacity limits (results needing "
+             "SIZE-1/SIZE/SIZE+1 digits, over-long decoder input, caller buffers and *len values around the need, "
+             "counts n = 0.. of array functions, invalid selectors) in both calling styles (inside RLC_TRY and "
+             "unprotected with err_get_code()), oracle fit-or-error + usability probe; (3) allocation-fault enumeration "
+             "on an ALLOC=DYNAMIC build: every allocation of 30 workload operations (bn, fp, ep, pairing, ECDSA/ECSS/ECDH) "
+             "is failed in turn (exhaustively up to a cap, evenly sampled above), oracle: error reported or same result, "
+             "no sanitizer report, same result afterwards.",
+        note="Objects are never forged. Leaks on error paths are recorded as observations (outside the statement). The "
+             "finalisation-after-allocation-failure crash sites found on the unchanged tree are a listed known finding, "
+             "matched by call site; any other site is a violation.",
+        tech="property-based boundary sweep (Hypothesis) + exhaustive/sampled allocation-fault injection, sanitizers as oracle"),
 }
 REASONS_TODO = "check not built yet (work in progress; see DESIGN.md §5 implementation order)"
 
